@@ -45,11 +45,65 @@ def plan(tier, seed):
     # (HintsProvider.get_hints has a separate code path for it)
     for n in (1, 2):
         items.append({"fam": "synchints", "n": n, "seed": seed})
+    # one transformation applied MANY times (sizes far beyond the leaf bound, one linear family per transformation)
+    for kind in ITER_KINDS:
+        for k in ITER_K[tier]:
+            items.append({"fam": "iterated", "kind": kind, "k": k, "seed": seed})
     for n, lab in BOUNDS[tier]:
         parts = {1: 1, 2: 4, 3: 48, 4: 768}[n]
         for p in range(parts):
             items.append({"n": n, "lab": lab, "part": p, "parts": parts, "seed": seed})
     return items
+
+
+ITER_BASES = ["[1]", "[1] U [2]", "[2] O [1]", "[1] X [2][901]", "([1] O [2]) U [3]"]
+ITER_K = {"quick": [2, 3, 5, 8, 9, 10, 11, 12, 16, 17, 24, 33], "thorough": list(range(2, 41)) + [48, 64, 65, 100]}
+ITER_KINDS = ["hints-right", "hints-left", "hints-both", "fcs", "brackets", "hints-per-operand"]
+
+
+def iterated(base, kind, k):
+    """the SAME transformation applied k times (k distinct fresh hint keys 501.. / FC keys 902..)"""
+    hints = [f"[{501 + i}]" for i in range(k)]
+    if kind == "hints-right":
+        return f"({base}) U " + " U ".join(hints)
+    if kind == "hints-left":
+        return " U ".join(hints) + f" U ({base})"
+    if kind == "hints-both":
+        return " U ".join(hints[: k // 2]) + f" U ({base}) U " + " U ".join(hints[k // 2:])
+    if kind == "fcs":
+        e = f"({base})"
+        for i in range(k):
+            e = f"({e}[{902 + i}])"
+        return e
+    if kind == "brackets":
+        return "(" * k + base + ")" * k
+    # k hints and-ed onto the FIRST operand (a key) of the base
+    return base.replace("[1]", "([1] U " + " U ".join(hints) + ")", 1)
+
+
+def check_iterated(base, kind, k):
+    expr = iterated(base, kind, k)
+    pb, pt = X.parse(base), X.parse(expr)
+    case = {"iterated": [base, kind, k]}
+    if pt[0] == "exc":
+        return [{"kind": "transformed-not-well-formed/iterated", "case": case, "expected": "a tree", "observed": pt[1], "msg": expr}], 0
+    rckeys = R3.keys_of(pb[2], "rc")
+    out = []
+    n = 0
+    for a in X.assignments(rckeys):
+        want = X.eval_async(base, pb[2], a)
+        got = X.eval_async(expr, pt[2], a)
+        got_t = X.eval_tree(pt[1], pt[2], a)
+        want_t = X.eval_tree(pb[1], pb[2], a)
+        n += 1
+        if want[0] == "exc" and got[0] == "exc" and want[1] == got[1] == "NotImplementedError":
+            continue  # undetermined outcome: documented
+        if got[0] == "exc" or want[0] == "exc" or got[1:3] != want[1:3] or got_t[0] == "exc" or got_t[1] != want_t[1]:
+            out.append({"kind": "requirement-changed/iterated-" + kind, "case": dict(case, assign=a), "expected": [list(want[:3]), list(want_t[:2])],
+                        "observed": [list(got[:3]), list(got_t[:2])],
+                        "msg": f"{kind} applied {k} times to {base} under {a}: {expr[:120]}"})
+            break
+    return out, n
 
 
 def worker_init():
@@ -214,6 +268,19 @@ def run_item(item):
     X.init()
     r = Result()
     pools = X.pools(item["seed"])
+    if item.get("fam") == "iterated":
+        for base in ITER_BASES:
+            vs, pairs = check_iterated(base, item["kind"], item["k"])
+            r.evaluations += pairs
+            r.states += pairs
+            r.transitions += 4 * pairs
+            r.traces += 1
+            r.nontrivial += pairs
+            r.stat("iterated_transformations")
+            for v in vs:
+                r.violation(v["kind"], v["case"], v["expected"], v["observed"], v["msg"])
+        r.sample({"iterated": [ITER_BASES[-1], item["kind"], item["k"]]})
+        return r
     if item.get("fam") == "synchints":
         I = X.init()
         I.setup(sync_hints=True)
@@ -280,6 +347,9 @@ def _tup(x):
 
 
 def replay(case):
+    if case.get("iterated"):
+        X.init()
+        return [v for v in check_iterated(*case["iterated"])[0]]
     ast = _tup(case["ast"])
     if case.get("mode"):
         from mc import impl_modes as M
